@@ -34,6 +34,7 @@ package timestamp
 // stmt C15 (the authority-side clauses)
 //@ func Timestamp(req, opts)
 //@   props C15
+//@   logged
 //@   requires req != nil && req.Timestamper != nil
 //@   calls NewRequest, Timestamper.Timestamp, SignedToken.Verify, Validator.ValidateContext
 //@   ensures [err=>no-token] err != nil ==> len(result) == 0 && result == nil
